@@ -4,6 +4,7 @@ package main
 // and revocation) over a scripted cursor client, driven by an op list.
 // input: "cfg maxRecords maxRate ; op ; op ..." with ops
 //   poll p | msg p o | main p o | kerr 0|1 | low p v | refresh | own p,p|- | revoke | req p f t | recv p f:t,..|- | crash
+//   queue p o (a record sits prefetched in the client's event queue) | handle (one iteration of the event loop on that queue)
 
 import (
 	"fmt"
@@ -34,6 +35,9 @@ func genRecovery(r *rng, n int, tier string, emit func(string)) {
 		"cfg 1000 1000 ; own 0,1 ; req 0 10 20 ; req 1 10 20 ; refresh ; low 0 15 ; low 1 30 ; kerr 1 ; refresh ; poll 0 ; poll 1 ; kerr 0",
 		// revoke stops emission; empty window; trimmed request
 		"cfg 3 1000 ; own 0 ; req 0 10 20 ; req 0 30 30 ; refresh ; poll 0 ; revoke ; poll 0 ; msg 0 18 ; own 0 ; refresh ; poll 0 ; poll 0 ; poll 0 ; poll 0",
+		// prefetched records of the old assignment are dropped when the assignment changes, handled when it does not
+		"cfg 1000 1000 ; own 0 ; req 0 20 30 ; refresh ; queue 0 25 ; queue 0 26 ; queue 0 27 ; recv 0 3:8 ; refresh ; handle ; handle ; poll 0 ; poll 0",
+		"cfg 1000 1000 ; own 0 ; req 0 20 30 ; refresh ; queue 0 20 ; queue 0 21 ; refresh ; handle ; queue 0 35 ; queue 0 22 ; handle ; handle ; handle ; poll 0",
 		// two partitions interleaved, completion of one reassigns the other
 		"cfg 1000 1000 ; own 0,1 ; req 0 1 3 ; req 1 7 12 ; refresh ; poll 1 ; poll 0 ; poll 1 ; poll 0 ; poll 0 ; poll 1 ; poll 1 ; poll 1 ; poll 1 ; poll 1",
 	} {
@@ -85,8 +89,26 @@ func genRecovery(r *rng, n int, tier string, emit func(string)) {
 				ops = append(ops, fmt.Sprintf("msg %d %d", p, r.rangeI(0, 45)))
 			case x < 740:
 				ops = append(ops, fmt.Sprintf("main %d %d", p, r.rangeI(0, 99)))
-			case x < 800:
+			case x < 780:
 				ops = append(ops, "refresh")
+			case x < 800:
+				// records prefetched before something changes the assignment (or does not), then the event loop runs
+				nq := r.intn(4) + 1
+				for q := 0; q < nq; q++ {
+					ops = append(ops, fmt.Sprintf("queue %d %d", r.intn(nparts), r.rangeI(0, 45)))
+				}
+				switch r.intn(4) {
+				case 0:
+					f := r.rangeI(0, 30)
+					ops = append(ops, fmt.Sprintf("recv %d %d:%d", p, f, f+r.rangeI(0, 9)), "refresh")
+				case 1:
+					ops = append(ops, "refresh")
+				case 2:
+					ops = append(ops, "revoke")
+				}
+				for q := r.intn(nq + 2); q > 0; q-- {
+					ops = append(ops, "handle")
+				}
 			case x < 830:
 				f := r.rangeI(0, 40)
 				ops = append(ops, fmt.Sprintf("req %d %d %d", p, f, f+r.pick(0, 1, 3, 6, 10)))
@@ -173,6 +195,18 @@ func execRecovery(input string) string {
 			}
 		case "msg":
 			g.rc.VerifProcessEvent(recMsg(&g.topic, int32(pi(1)), pi(2)))
+		case "queue":
+			select {
+			case g.client.events <- recMsg(&g.topic, int32(pi(1)), pi(2)):
+			default:
+				return "bad-input queue-full"
+			}
+		case "handle":
+			select {
+			case ev := <-g.client.events:
+				g.rc.VerifProcessEvent(ev)
+			default:
+			}
 		case "main":
 			g.kc.VerifProcessEvent(recMsg(&g.topic, int32(pi(1)), pi(2)))
 		case "kerr":
